@@ -24,7 +24,8 @@ def mask(fmt, b):
 
 
 def console_norm(b):
-    return sorted(b.decode('utf-8', 'replace').splitlines())
+    # colour escapes of the console renderings follow CLICOLOR_FORCE / NO_COLOR / the terminal: presentation, not content
+    return sorted(re.sub(r'\x1b\[[0-9;]*m', '', b.decode('utf-8', 'replace')).splitlines())
 
 
 VAL_MODES = [
@@ -111,7 +112,8 @@ def run_processes(ctx, n, thorough):
     return ndist
 
 
-ENVS = [{'TZ': 'UTC0', 'LANG': 'C'}, {'TZ': 'JST-9', 'LANG': 'en_US.UTF-8', 'HOME': '/nonexistent'}, {'TZ': 'America/Los_Angeles', 'LC_ALL': 'tr_TR.UTF-8', 'COLUMNS': '40'}]
+ENVS = [{'TZ': 'UTC0', 'LANG': 'C'}, {'TZ': 'JST-9', 'LANG': 'en_US.UTF-8', 'HOME': '/nonexistent'}, {'TZ': 'America/Los_Angeles', 'LC_ALL': 'tr_TR.UTF-8', 'COLUMNS': '40'},
+        {'CLICOLOR_FORCE': '1', 'TERM': 'xterm-256color'}, {'NO_COLOR': '1', 'CLICOLOR': '0', 'TERM': 'dumb'}]
 DATE_RULES = ('let t1 = parse_epoch(ts_plain)\nlet t2 = parse_epoch(ts_z)\nlet up = to_upper(name)\nlet lo = to_lower(name)\n'
               'rule z_ts { %t2 == 1704067200 }\nrule upper { %up == "ISTANBUL" }\nrule lower { %lo == "istanbul" }\nrule plain_ts { %t1 == 1704067200 }\n')
 DATE_DOC = {"ts_plain": "2024-01-01T00:00:00", "ts_z": "2024-01-01T00:00:00Z", "name": "istanbul"}
@@ -134,17 +136,28 @@ def run_environment(ctx, n):
             for ei, env in enumerate(ENVS):
                 jobs.append({'args': ['validate', '-r', 'r.guard', '-d', 'd.json'] + fl, 'cwd': d, 'env': env})
                 meta.append((k, lab, ei))
+    # the test command with met and unmet expectations, every rendering, under the same environments
+    d = os.path.join(ctx.wd, 'etest')
+    spec = [{'name': 'c0', 'input': {'x': 1}, 'expectations': {'rules': {'a': 'FAIL', 'b': 'PASS', 's': 'PASS'}}}, {'name': 'c1', 'input': {'x': 2}, 'expectations': {'rules': {'a': 'FAIL'}}}]
+    e2e.write_files(d, {'r.guard': 'rule a {\n  x == 1\n}\nrule b {\n  x exists\n}\nrule s when y exists {\n  x == 3\n}\n', 'tests/r_tests.yaml': json.dumps(spec)})
+    scen.append({'rules': 'test command: rules a, b, s with met and unmet expectations', 'doc': spec})
+    for lab, fl in (('test-junit', ['-o', 'junit']), ('test-json', ['-o', 'json']), ('test-yaml', ['-o', 'yaml']), ('test-plain', []), ('test-plain-v', ['-v'])):
+        for ei, env in enumerate(ENVS):
+            jobs.append({'args': ['test', '-r', 'r.guard', '-t', 'tests/r_tests.yaml'] + fl, 'cwd': d, 'env': env})
+            meta.append((n, lab, ei))
     res = e2e.run_many(jobs)
     groups = {}
     for (k, lab, ei), r in zip(meta, res):
         groups.setdefault((k, lab), []).append(r)
     for (k, lab), rs in groups.items():
+        if lab == 'test-junit':
+            rs = [(c, mask('junit', so), se) for c, so, se in rs]
         info = {'class': 'environment', 'mode': lab, 'rules': scen[k]['rules'], 'doc': scen[k]['doc'], 'environments': ENVS}
         if any(c == 'timeout' or (isinstance(c, int) and (c < 0 or c == 101)) for c, _, _ in rs):
             continue
         if len(set(r[0] for r in rs)) != 1:
             ctx.failing('%s: exit code depends on the environment: %s' % (lab, [r[0] for r in rs]), info, found=True)
-        elif len(set((json.dumps(console_norm(r[1])) if lab == 'console' else r[1]) for r in rs)) != 1:
+        elif len(set((json.dumps(console_norm(r[1])) if lab in ('console', 'test-plain', 'test-plain-v') else r[1]) for r in rs)) != 1:
             ctx.failing('%s: output depends on the environment (TZ / locale / HOME / COLUMNS)' % lab, info, found=True)
     ctx.coverage['environment_groups'] = len(groups)
     ctx.coverage['evaluations'] += len(jobs)
